@@ -1600,6 +1600,9 @@ class Exec:
         if isinstance(fn, DType):
             (v,) = args
             return v
+        if type(fn).__name__ == "AggFn":
+            from .objmodels import call_aggfn
+            return call_aggfn(self, fn, args, kwargs, n)
         if isinstance(fn, Opaque) and fn.ghost.get("bound"):
             b, name = fn.ghost["bound"]
             return self.call_method(b, name, args, kwargs, n, env, fr)
